@@ -39,6 +39,8 @@ vector<double> NumCalcApplicationTools::getVector(const std::string& desc)
 
   if (desc.substr(0, 3) == "seq") // Bounds specified as sequence
   {
+    if (desc.size() < 5 || desc[3] != '(' || desc[desc.size() - 1] != ')')
+      throw Exception("Unvalid sequence specification, expected 'seq(...)': " + desc);
     map<string, string> keyvals;
     KeyvalTools::multipleKeyvals(desc.substr(4, desc.size() - 5), keyvals);
     if (keyvals.find("from") == keyvals.end())
@@ -79,6 +81,8 @@ vector<double> NumCalcApplicationTools::getVector(const std::string& desc)
     if (keyvals.find("step") != keyvals.end())
     {
       double step = TextTools::toDouble(keyvals["step"]);
+      if (!(step > 0))
+        throw Exception("Unvalid sequence specification, 'step' must be positive: " + desc);
       for (double x = start; x <= end + NumConstants::TINY(); x += step)
       {
         double y;
